@@ -11,7 +11,13 @@ REPO="${VERIF_REPO:-/repo}"
 build() {
   (cd "$HERE/checker" && GOFLAGS=-mod=vendor go build -o "$HERE/bin/vchk" .) || { echo "BROKEN cannot build checker"; exit 2; }
 }
-if [ "${1:-}" = "--build" ]; then mkdir -p "$HERE/bin"; build; exit 0; fi
+if [ "${1:-}" = "--build" ]; then
+  mkdir -p "$HERE/bin"; build
+  # warm Go's build cache with the export data of /repo's packages (go/packages needs it to type-check
+  # dependencies); analysis results themselves are never cached. Best effort.
+  (cd "$REPO" && GOFLAGS=-mod=mod go build ./... >/dev/null 2>&1) || true
+  exit 0
+fi
 if [ ! -x "$HERE/bin/vchk" ] || [ -n "$(find "$HERE/checker" -name '*.go' -newer "$HERE/bin/vchk" -not -path '*/vendor/*' -print -quit 2>/dev/null)" ]; then
   mkdir -p "$HERE/bin"; build
 fi
